@@ -173,7 +173,7 @@ SPEC = {
         {'name': 'stale', 'fn': 'stale', 'params': _P, 'call': _C,
          'bounds': {'quick': _Q, 'thorough': _T},
          'slices': {'quick': ['a_p == %d and %s' % (p, r) for p in range(6) for r in ('rev', 'not rev')],
-                    'thorough': ['a_p == %d and b_p == %d and %s and flags == %d' % (p, q, r, f) for p in range(6) for q in range(6) for r in ('rev', 'not rev') for f in range(6)]},
+                    'thorough': ['a_p == %d and b_p == %d and %s and flags == %d' % (p, q, r, f) for p in range(6) for q in range(3) for r in ('rev', 'not rev') for f in range(6)]},
          'reach': 'stale_reach', 'reach_bounds': {'quick': _B + ' and flags == 0 and paths == 0 and link == 0 and a_p == 0 and b_p == 1',
                                                   'thorough': _B + ' and flags == 0 and paths == 0 and link == 0 and a_p == 0 and b_p == 1'},
          'timeout': {'quick': 300, 'thorough': 1700},
